@@ -106,7 +106,7 @@ class C16(Check):
             "exactly before + accepted names (lexically equivalent, non-absolute) + after. Plus names <=4 components over "
             "{a,..}+dictionary of path literals from helpers.py, names of 2..6 components over {..,a}+the last two components of each "
             "such literal (the internal probe directory), Hypothesis names, and write()/writeall() of a scratch tree in 8 path "
-            "forms. Non-trivial: name contains '..' or an absolute/drive prefix; distinct by name.")
+            "forms, write() of sources that are only separators or ancestors of the scratch tree ('/', '//', '/tmp/'). Non-trivial: name contains '..' or an absolute/drive prefix; distinct by name.")
     assumptions = ["independent verdict: split on '/', absolute iff leading '/', reject iff depth goes negative",
                    "POSIX host: 'c:' is an ordinary component for writestr/writef; write() strips it as a drive prefix"]
     budget_s = {"quick": 60, "thorough": 900}
@@ -155,6 +155,11 @@ class C16(Check):
             idx += 1
             if env.mine(idx):
                 yield {"k": "names", "names": batch, "src": "probe-tail"}
+        # sources that are nothing but separators, or ancestors of the scratch tree: write() of a directory stores one entry
+        for src in ("/", "//", "///", "P:/", "/tmp", "/tmp/", "//tmp", "P:/tmp/"):
+            idx += 1
+            if env.mine(idx):
+                yield {"k": "rootpath", "src": src}
         for form in range(8):
             for entry in ("write", "writeall"):
                 idx += 1
@@ -174,6 +179,8 @@ class C16(Check):
         out = Outcome()
         if case["k"] == "names":
             self._names(case, out)
+        elif case["k"] == "rootpath":
+            self._rootpath(case, out, env)
         else:
             self._tree(case, out, env)
         return out
@@ -234,6 +241,35 @@ class C16(Check):
                     out.violate({"kind": "neighbour-member-disturbed"}, observed=got, expected=want)
             elif want is not None and resolve_stored(got) != want:
                 out.violate({"kind": "stored-name-not-equivalent"}, observed=got, expected="/".join(want))
+
+    def _rootpath(self, case, out, env):
+        src = case["src"]
+        out.nontrivial = True
+        out.label("tree:rootpath")
+        arg = pathlib.Path(src[2:]) if src.startswith("P:") else src
+        bio = io.BytesIO()
+        try:
+            with py7zr.SevenZipFile(bio, "w", filters=COPY) as z:
+                z.writestr(b"before", "before.txt")
+                try:
+                    z.write(arg)
+                    refused = None
+                except (ValueError, OSError) as e:  # a clean refusal stores nothing absolute either
+                    refused = type(e).__name__
+                z.writestr(b"after", "after.txt")
+        except Exception as e:
+            out.violate({"kind": "tree-write-raises", "entry": "write", "form": "rootpath", "exc": type(e).__name__}, observed={"src": src, "exc": repr(e)[:200]},
+                        expected="relative name stored or clean refusal")
+            return
+        bio.seek(0)
+        with py7zr.SevenZipFile(bio, "r") as r:
+            listed = r.getnames()
+        out.sample = {"src": src, "listed": listed, "refused": refused}
+        for n in listed:
+            if is_absolute_name(n) or n == "":
+                out.violate({"kind": "absolute-name-stored", "entry": "write", "form": "rootpath"}, observed={"src": src, "stored": n}, expected="relative name")
+        if listed[:1] != ["before.txt"] or listed[-1:] != ["after.txt"] or len(listed) != (2 if refused else 3):
+            out.violate({"kind": "tree-member-count", "entry": "write", "form": "rootpath"}, observed=listed, expected="before, the directory entry, after")
 
     def _tree(self, case, out, env):
         form, entry = case["form"], case["entry"]
